@@ -391,6 +391,10 @@ func relevant(id string, prop string, spec *HarnessSpec) bool {
 	if id == "PANIC" || id == "DEADLOCK" {
 		return true
 	}
+	if id == "ALLOC" {
+		// memory an input can make the package allocate: C09 (no peer input can bloat an endpoint), C06
+		return prop == "C09" || prop == "C06"
+	}
 	for _, p := range obligationProps(id) {
 		if p == prop {
 			return true
